@@ -444,6 +444,10 @@ class Generator:
     # ---------------------------------------------------------------- lemma
     def emit_lemma(self, unit: Unit, txt: List[str]):
         joined = "\n".join(txt) + "\n"
+        for f in unit.flags:
+            # `cfg=<feature>`: the lemma exists only in that configuration (its fns carry #[cfg(feature = ..)] in the template)
+            if f.startswith("cfg=") and f[4:] not in self.features and "absent_in_this_config" not in unit.flags:
+                unit.flags.append("absent_in_this_config")
         if re.search(r"\brequires\b", joined):
             unit.has_requires = True
         if self.canary:
@@ -726,6 +730,12 @@ class Generator:
             if m and ((m.group(2) in self.features) == bool(m.group(1))):
                 if "absent_in_this_config" not in unit.flags:
                     unit.flags.append("absent_in_this_config")
+        for f in list(flags):
+            # `cfg=<feature>`: the item's module is compiled only with that feature (cfg on the `mod` declaration)
+            if f.startswith("cfg="):
+                w.emit('#[cfg(feature = "%s")]\n' % f[4:])
+                if f[4:] not in self.features and "absent_in_this_config" not in unit.flags:
+                    unit.flags.append("absent_in_this_config")
         if "only=default" in flags and "autocomplete" in self.features:
             # the unit's text under this feature set is outside the verifier's reach: its contract is *assumed* here
             flags = list(flags) + ["external_body"]
@@ -858,6 +868,24 @@ class Generator:
                     raise ShapeError("%s: loop without body" % unit.name)
                 loops.append((k, opn))
             k += 1
+        # T12: byte-string literals written as array literals of their bytes (`b"\\ "` -> `&[92u8, 32u8]`): Verus models the
+        # length of a byte-string literal but not its contents; the value and the type `&[u8; N]` are unchanged
+        if "byte_lits" in flags:
+            import ast
+            nlit = 0
+            for k in range(bo + 1, bc):
+                t = toks[k]
+                if t.kind == "str" and t.text.startswith('b"'):
+                    if "\\\n" in t.text:
+                        raise ShapeError("%s: byte-string literal with a line continuation is not supported" % unit.name)
+                    try:
+                        val = ast.literal_eval(t.text)
+                    except Exception:
+                        raise ShapeError("%s: cannot evaluate byte-string literal %s" % (unit.name, t.text))
+                    edits.append((k, k + 1, "&[" + ", ".join("%du8" % b for b in val) + "]"))
+                    nlit += 1
+            if nlit:
+                unit.insertions.append("T12: %d byte-string literal(s) written as array literals of the same bytes" % nlit)
         want = opts["loops"]
         if want:
             if max(want) > len(loops):
@@ -870,22 +898,24 @@ class Generator:
             if n > len(loops):
                 raise ShapeError("%s: unit annotates loop %d but the body has %d loops" % (unit.name, n, len(loops)))
             kw, opn = loops[n - 1]
-            edits.append((kw, kw, " " + "\n".join(payload).strip("\n") + " "))
+            edits.append((kw, kw, " " + "\n".join(payload).strip("\n") + "\n"))
             unit.insertions.append("before loop %d: ghost declarations" % n)
         for n, payload in opts.get("loopbodies", {}).items():
             if n > len(loops):
                 raise ShapeError("%s: unit annotates loop %d but the body has %d loops" % (unit.name, n, len(loops)))
             kw, opn = loops[n - 1]
-            edits.append((opn + 1, opn + 1, " " + "\n".join(payload).strip("\n") + " "))
+            edits.append((opn + 1, opn + 1, " " + "\n".join(payload).strip("\n") + "\n"))
             unit.insertions.append("start of loop %d body: ghost proof block" % n)
         for n, payload in opts.get("postloops", {}).items():
             if n > len(loops):
                 raise ShapeError("%s: unit annotates loop %d but the body has %d loops" % (unit.name, n, len(loops)))
             kw, opn = loops[n - 1]
             cls = match_close(toks, opn)
-            edits.append((cls + 1, cls + 1, " " + "\n".join(payload).strip("\n") + " "))
+            edits.append((cls + 1, cls + 1, " " + "\n".join(payload).strip("\n") + "\n"))
             unit.insertions.append("after loop %d: ghost proof block" % n)
-        desugar = [int(f.split("=")[1]) for f in flags if f.startswith("desugar_for=")]
+        desugar_into = [int(f.split("=")[1]) for f in flags if f.startswith("desugar_for_into=")]
+        desugar = [int(f.split("=")[1]) for f in flags if f.startswith("desugar_for=")] + desugar_into
+        ref_binder = [int(f.split("=")[1]) for f in flags if f.startswith("ref_binder=")]
         for n, payload in want.items():
             kw, opn = loops[n - 1]
             txt = "\n" + "\n".join(payload) + "\n"
@@ -917,11 +947,60 @@ class Generator:
             pat = text_of(src, kw + 1, inn).strip()
             expr = text_of(src, inn + 1, opn).strip()
             inv = "\n" + "\n".join(want.get(n, [])) + "\n"
-            head = "{ let mut verif_it_%d = %s; loop %s { let %s = match verif_it_%d.next() { Some(verif_x) => verif_x, None => break, }; " % (n, expr, inv, pat, n)
+            # T11b: `&x` reference patterns in the binder (Verus has no ref patterns): bind the reference, dereference in a `let`
+            derefs = ""
+            for m in re.finditer(r"&\s*([A-Za-z_][A-Za-z0-9_]*)\b", pat):
+                if m.group(1) == "mut":
+                    raise ShapeError("%s: loop %d: `&mut` pattern in a for binder is not supported" % (unit.name, n))
+                derefs += " let %s = *verif_r_%s;" % (m.group(1), m.group(1))
+            if derefs:
+                pat = re.sub(r"&\s*([A-Za-z_][A-Za-z0-9_]*)\b", lambda m: "verif_r_" + m.group(1), pat)
+                unit.insertions.append("T11b loop %d: reference pattern in the binder replaced by a binding + `let x = *r;`" % n)
+            if n in desugar_into:
+                # the general form of the reference's desugaring: the iterator is `IntoIterator::into_iter(EXPR)`
+                expr = "IntoIterator::into_iter(%s)" % expr
+            ghost_all = ""
+            if n in desugar_into:
+                # ghost only: the sequence of items the iterator will yield (vstd's prophetic iterator model)
+                ghost_all = " let ghost verif_all_%d = verif_it_%d.remaining();" % (n, n)
+            head = "{ let mut verif_it_%d = %s;%s loop %s { let %s = match verif_it_%d.next() { Some(verif_x) => verif_x, None => break, };%s " % (n, expr, ghost_all, inv, pat, n, derefs)
             edits.append((kw, opn + 1, head))
             cls = match_close(toks, opn)
             edits.append((cls + 1, cls + 1, " }"))
             unit.insertions.append("T11 loop %d: `for %s in %s` desugared to `loop { match it.next() .. }`" % (n, pat, expr))
+        # T11b on a native `for`: `for &c in EXPR { B }` -> `for verif_r_c in verif_it_N: EXPR { let c = *verif_r_c; B }`
+        # (Verus has no reference patterns; `verif_it_N:` is Verus' ghost binder for the loop's iterator)
+        for n in ref_binder:
+            if n > len(loops):
+                raise ShapeError("%s: unit rewrites the binder of loop %d but the body has %d loops" % (unit.name, n, len(loops)))
+            kw, opn = loops[n - 1]
+            if toks[kw].text != "for":
+                raise ShapeError("%s: loop %d is no longer a `for` loop" % (unit.name, n))
+            inn = None
+            depth = 0
+            for k in range(kw + 1, opn):
+                tx = toks[k]
+                if tx.kind == "punct" and tx.text in "([{":
+                    depth += 1
+                elif tx.kind == "punct" and tx.text in ")]}":
+                    depth -= 1
+                elif tx.kind == "ident" and tx.text == "in" and depth == 0:
+                    inn = k
+                    break
+            if inn is None:
+                raise ShapeError("%s: loop %d: `in` not found" % (unit.name, n))
+            pat = text_of(src, kw + 1, inn).strip()
+            derefs = ""
+            for m in re.finditer(r"&\s*([A-Za-z_][A-Za-z0-9_]*)\b", pat):
+                if m.group(1) == "mut":
+                    raise ShapeError("%s: loop %d: `&mut` pattern in a for binder is not supported" % (unit.name, n))
+                derefs += " let %s = *verif_r_%s;" % (m.group(1), m.group(1))
+            if not derefs:
+                raise ShapeError("%s: loop %d: binder has no reference pattern any more" % (unit.name, n))
+            pat = re.sub(r"&\s*([A-Za-z_][A-Za-z0-9_]*)\b", lambda m: "verif_r_" + m.group(1), pat)
+            edits.append((kw + 1, inn + 1, " %s in verif_it_%d: " % (pat, n)))
+            edits.insert(0, (opn + 1, opn + 1, derefs + " "))  # before any ghost text placed at the start of the body
+            unit.insertions.append("T11b loop %d: reference pattern in the binder replaced by a binding + `let x = *r;`; ghost iterator binder verif_it_%d" % (n, n))
         # anchored insertions
         body_text_start = toks[bo].start
         body_text = src.text[body_text_start : toks[bc].end]
@@ -944,7 +1023,7 @@ class Generator:
                 if not tk:
                     raise ShapeError("%s: anchor `%s` does not end at a token boundary" % (unit.name, anchor))
                 at = tk[0] + 1
-            txt = " " + "\n".join(payload).strip("\n") + " "
+            txt = " " + "\n".join(payload).strip("\n") + "\n"
             edits.append((at, at, txt))
             unit.insertions.append("%s `%s`: %s" % (where, anchor, " ".join(txt.split())[:120]))
         # T3b closure pattern parameter desugaring
